@@ -42,7 +42,7 @@ def check(k, seed):
                 with warnings.catch_warnings():
                     warnings.simplefilter('ignore')
                     diagnostic(chunk, upto=upto, show_ceilos=show_ceilos, show=False, save_stem=stem, save_fmts=fmts,
-                               ref_metar_origin='x' if k % 3 == 0 else None, ref_metar='FEW010' if k % 3 == 0 else None)
+                               ref_metar_origin=[None, 'x', 'Human observer', None][k % 4], ref_metar=[None, 'FEW010', None, 'BKN020 OVC030='][k % 4])
             except Exception as e:
                 fails.append(f"diagnostic(upto='{upto}', show_ceilos={show_ceilos}) raised {type(e).__name__}: {str(e)[:120]}")
                 plt.close('all')
